@@ -1,6 +1,7 @@
 import M3d.Lemmas.ConcDcl
 import M3d.Lemmas.ConcPatterns
 import M3d.Lemmas.ConcQuery
+import M3d.Lemmas.ConcIter
 import M3d.Lemmas.ConcCollect
 import M3d.Lemmas.ConcStrided
 import M3d.Gen.ConcFacts
@@ -497,6 +498,191 @@ theorem query_field_scratch_racy :
     ((run p (structInit 5) (alone (interrupted 2) 0)).thr 0).out = 15 := by
   decide
 
+/-! ### Enumerating a shared mesh: `Mesh.Iterate`, `Mesh.IterateSorted` (model3d, model2d) -/
+
+/-- **Concurrent enumerations of one mesh each visit every face exactly once, in their own
+order.**  Any number of goroutines call `Iterate` / `IterateSorted(f, cmp)` on one mesh with
+face set `s` and `n` faces; reader `t` sorts with its own comparison function (`srt t`; the
+identity for `Iterate`) the list that `TriangleSlice()` / `SegmentSlice()` allocated for this
+call, and hands the faces at positions `0 … n-1` of that list to its callback, which records
+them (`snoc`) and may keep the reader inside user code for any time.  Under every schedule —
+in particular with one reader parked inside its callback while others sort and enumerate with
+other comparison functions: no data race, the face set is unchanged, and every reader that has
+returned has been given exactly the faces `nth (srt t s) 0, …, nth (srt t s) (n-1)` in this
+order: what the same call is given in sequential use. -/
+theorem iterate_private_list_eq_sequential (srt : Tid → Val → Val) (nth : Val → Nat → Val)
+    (snoc : Val → Val → Val) (n : Nat) (s : Val) (sched : Schedule) :
+    let p := iterLocalProg srt nth snoc n
+    let c := run p (structInit s) sched
+    raceFreeFrom p (structInit s) sched = true ∧ c.mem FACES = s ∧
+    ∀ t, done p c t = true →
+      c.mem (ILOG t) = (List.range n).foldl (fun lg j => snoc lg (nth (srt t s) j)) 0 := by
+  intro p c
+  have H := owned_state_noninterference iterOwn iterShared iterOwn_disj iterShared_unowned p
+    (iterLocal_RO srt nth snoc n) (upd Config.init.mem STRUCT s) sched
+  change raceFreeFrom p (structInit s) sched = true ∧
+    (∀ l, iterShared l = true → c.mem l = upd Config.init.mem STRUCT s l) ∧
+    (∀ t, viewOf c t = viewOf (run p (structInit s) (alone sched t)) t ∧
+      ∀ l, iterOwn t l = true → c.mem l = (run p (structInit s) (alone sched t)).mem l) at H
+  obtain ⟨h1, h2, h3⟩ := H
+  refine ⟨h1, ?_, fun t ht => ?_⟩
+  · rw [h2 FACES (by simp [iterShared])]
+    simp [upd, FACES]
+  · obtain ⟨hv, hm⟩ := h3 t
+    rw [hm (ILOG t) (by simp [iterOwn])]
+    rw [alone_eq_replicate] at hv ⊢
+    have S := solo_run p t (fun st hs => stepRO_isPlain _ _ t st (iterLocal_RO srt nth snoc n t st hs))
+      (structInit s) rfl (sched.count t)
+    have hpceq : (c.thr t).pc = ((run p (structInit s) (List.replicate (sched.count t) t)).thr t).pc := by
+      have := congrArg View.pc hv
+      simpa [viewOf] using this
+    have hdone : (p t).length ≤ (c.thr t).pc := of_decide_eq_true ht
+    have hk : (p t).length ≤ sched.count t := by
+      rw [hpceq, S.1] at hdone
+      exact Nat.le_trans hdone (Nat.min_le_left _ _)
+    have e := congrArg Prod.fst S.2
+    simp only at e
+    rw [e, List.take_of_length_le hk]
+    have hne : ILIST t ≠ ILOG t := by
+      simp only [ILIST, ILOG, ne_eq]
+      exact fun h => absurd (Nat.add_right_cancel h) (by decide)
+    have hl : ILOG t ≠ FACES := by
+      simp only [ILOG, FACES, STRUCT, ne_eq]
+      exact fun h => absurd h (Nat.ne_of_gt (Nat.add_pos_left (by decide) _))
+    have I := interp_iterThread (srt t) nth snoc n (ILIST t) (ILOG t) hne hl (structInit s).mem
+      ((structInit s).thr t).out
+    have m1 : (structInit s).mem FACES = s := by simp [structInit, upd, FACES]
+    have m2 : (structInit s).mem (ILOG t) = 0 := by
+      simp only [structInit]
+      exact upd_other _ _ hl
+    rw [m1, m2] at I
+    exact I
+
+/-- Non-vacuity: a mesh with the three faces 1, 2, 3 (a list is the decimal number with these
+digits), reader 0 without a comparison function, reader 1 sorting in descending order, reader 2
+plain again; reader 0 is parked inside its first callback while reader 1 runs completely, then all
+interleave.  Every reader is given its own order, each face once. -/
+example :
+    let srt : Tid → Val → Val := fun t => if t = 1 then rev3 else id
+    let p := iterLocalProg srt nth3 snoc10 3
+    let s : Schedule := List.replicate 5 0 ++ List.replicate 11 1 ++
+      [2, 0, 2, 0, 2, 0, 2, 0, 2, 0, 2, 0, 2, 2, 2, 2, 2]
+    let c := run p (structInit 123) s
+    ((List.range 3).all fun t => done p c t) = true ∧
+      (List.range 3).map (fun t => c.mem (ILOG t)) = [123, 321, 123] := by
+  decide
+
+/-- **A face list cached in the mesh and sorted in place is not safe**: if the enumerations
+share one list (`all := m.getFaceList()`) and a reader with a comparison function sorts that
+list, the *interrupted reader* schedule the harness forces — reader 0 parked inside its first
+callback, reader 1 running a complete `IterateSorted` in descending order, reader 0 resumed —
+has a data race on the list and gives reader 0 the faces 1, 2, 1: face 1 twice, face 3 never,
+where the same call alone is given 1, 2, 3.  Decided by evaluation. -/
+theorem iterate_shared_list_racy :
+    let srt : Tid → Option (Val → Val) := fun t => if t = 1 then some rev3 else none
+    let p := iterSharedProg srt nth3 snoc10 3
+    let s : Schedule := List.replicate 3 0 ++ List.replicate 11 1 ++ List.replicate 6 0
+    let c := run p (structInit 123) s
+    raceFreeFrom p (structInit 123) s = false ∧ ((List.range 2).all fun t => done p c t) = true ∧
+    c.mem (ILOG 0) = 121 ∧ c.mem (ILOG 1) = 321 ∧
+    (run p (structInit 123) (alone s 0)).mem (ILOG 0) = 123 := by
+  decide
+
+/-! ### One renderer, several calls: `Render`, `RenderVariance`, `RayVariance` -/
+
+/-- **Overlapping calls on one renderer each sample with the configuration they sample with
+alone.**  Any number of goroutines call entry points of one `RecursiveRayTracer` /
+`BidirPathTracer` whose `Antialias` field is `cfg`: goroutine `t` calls `Render` /
+`RenderVariance` (`kinds t = 0`) or `RayVariance` (`kinds t ≠ 0`, "antialiasing is not used").
+Every call copies the fields into a `rayRenderer` of its own (`RayVariance` into a further copy
+with `Antialias = 0`) before its workers cast rays into the user's scene, and the workers read
+that copy.  Under every schedule — in particular with one call parked inside the scene's `Cast`
+while others run: no data race, the renderer's field is unchanged, and every call that has
+returned sampled with `effCfg cfg (kinds t)`: the renderer's value for `Render` /
+`RenderVariance`, `0` for `RayVariance` — as in sequential use. -/
+theorem renderer_calls_private_config_eq_sequential (kinds : Tid → Val) (cfg : Val) (sched : Schedule) :
+    let p := renderCallProg kinds
+    let c := run p (structInit cfg) sched
+    raceFreeFrom p (structInit cfg) sched = true ∧ c.mem CFG = cfg ∧
+    ∀ t, done p c t = true → (c.thr t).out = effCfg cfg (kinds t) :=
+  query_local_scratch_eq_sequential effCfg kinds cfg sched
+
+/-- Non-vacuity: `RayVariance` (goroutine 0) parked inside the scene while `Render` (1) and
+`RenderVariance` (2) run on the same renderer with `Antialias = 2`: they sample with 0, 2, 2. -/
+example :
+    let p := renderCallProg (fun t => if t = 0 then 1 else 0)
+    let c := run p (structInit 2) [0, 0, 0, 1, 2, 1, 2, 1, 2, 1, 2, 0]
+    ((List.range 3).all fun t => done p c t) = true ∧
+      (List.range 3).map (fun t => (c.thr t).out) = [0, 2, 2] ∧ c.mem CFG = 2 := by
+  decide
+
+/-- **Switching antialiasing off in the renderer's own field is not safe**: if `RayVariance`
+saves, zeroes and afterwards restores `r.Antialias` instead of zeroing a private copy, then
+(1) with goroutine 0 parked inside the scene's `Cast` of its `RayVariance`, a complete `Render`
+of goroutine 1 on the same renderer (`Antialias = 2`) snapshots 0 — it renders without
+antialiasing, although the same call alone samples with 2 — and its read races with the writes
+of goroutine 0; and (2) two overlapping `RayVariance` calls can leave the renderer with
+`Antialias = 0` for good (the second saves the zeroed value and restores it last).  Decided. -/
+theorem renderer_config_field_racy :
+    let p := rendererFieldProg (fun t => if t = 0 then 1 else 0)
+    let s : Schedule := [0, 0, 0, 1, 1, 1, 1, 0]
+    let c := run p (structInit 2) s
+    let p2 := rendererFieldProg (fun _ => 1)
+    let c2 := run p2 (structInit 2) [0, 0, 1, 1, 0, 0, 1, 1]
+    raceFreeFrom p (structInit 2) s = false ∧ ((List.range 2).all fun t => done p c t) = true ∧
+    (c.thr 1).out = 0 ∧ effCfg 2 0 = 2 ∧ c.mem CFG = 2 ∧
+    ((run p (structInit 2) (alone s 1)).thr 1).out = 2 ∧
+    ((List.range 2).all fun t => done p2 c2 t) = true ∧ c2.mem CFG = 0 := by
+  decide
+
+/-! ### Progress reports of a rendering: `rayRenderer.Render`, `LogFunc` -/
+
+/-- **Only the goroutine that called `Render` counts pixels and reports progress.**  The pixel
+tasks (threads `0 … n-1`) color their pixel and send the number of samples over the progress
+channel; the caller (thread `n`) receives, increments `pixelsComplete` and calls `LogFunc`, once
+per pixel.  Under every schedule, for every `n`: no data race; every access of the counter is
+the caller's (so the reports are made by one goroutine, one after the other); the counter is the
+number of reports made so far — it goes up by exactly one per report, never loses an update —
+and when the caller has returned it is `n`: the reports were `1/n, 2/n, …, n/n`, as when the
+pixels are colored one after the other. -/
+theorem progress_reports_single_consumer (n : Nat) (sched : Schedule) :
+    let p := progressProg n
+    let c := run p Config.init sched
+    raceFree p sched = true ∧ (∀ a ∈ c.hist, a.tid = n) ∧
+    c.mem CNT = (c.thr n).pc / 2 ∧ c.mem CNT ≤ n ∧
+    (done p c n = true → c.mem CNT = n) := by
+  intro p c
+  have I : ProgInv n c := progInv_run n _ sched (progInv_init n)
+  have hle : c.mem CNT ≤ n := by
+    rw [I.cnt]
+    exact Nat.div_le_of_le_mul I.pcle
+  refine ⟨List.isEmpty_iff.2 I.norace, I.hist, I.cnt, hle, fun hd => ?_⟩
+  have h2 : (p n).length ≤ (c.thr n).pc := of_decide_eq_true hd
+  have hp : p n = progressConsumer n := by simp [p, progressProg]
+  rw [hp, progressConsumer_length] at h2
+  have hpc : (c.thr n).pc = 2 * n := Nat.le_antisymm I.pcle h2
+  rw [I.cnt, hpc]
+  exact Nat.mul_div_cancel_left n (by decide)
+
+/-- Non-vacuity: three pixels; the caller is scheduled first (blocks on the empty channel), the
+workers finish in the order 2, 0, 1; three reports, counter 3. -/
+example :
+    let p := progressProg 3
+    let c := run p Config.init [3, 2, 2, 3, 3, 0, 1, 0, 3, 1, 3, 3, 3]
+    done p c 3 = true ∧ c.mem CNT = 3 ∧ raceFree p [3, 2, 2, 3, 3, 0, 1, 0, 3, 1, 3, 3, 3] = true := by
+  decide
+
+/-- **Counters updated by the pixel workers themselves are not safe**: with the channel removed
+and every worker doing `pixelsComplete++` itself, two workers that both read the counter before
+either writes it race and lose an update (2 pixels colored, counter 1 — the last report is 1/2,
+not 1).  Decided by evaluation. -/
+theorem progress_counters_in_workers_racy :
+    let p := progressRacyProg 2
+    let s : Schedule := [0, 1, 0, 1, 0, 1]
+    let c := run p Config.init s
+    raceFree p s = false ∧ ((List.range 2).all fun t => done p c t) = true ∧ c.mem CNT = 1 := by
+  decide
+
 /-! ### `sync.Map` memoisation: `model2d.CacheScalarFunc` -/
 
 /-- **Every caller of the cached function gets `f x`, whatever the schedule.**  Any number of
@@ -616,6 +802,17 @@ theorem facts_collect_sites :
         w.func == "DualContouring.populateEdges#ReduceConcurrentMap.reduce1") = true := by
   decide
 
+/-- `rayRenderer.Render` is the `progressProg` instance: its pixel workers write captured state
+only through their own pixel (`img.Data[idx]`) and otherwise only send on the progress channel
+(which the goroutine that runs `mapCoordinates` closes afterwards) — the counters and `LogFunc`
+are touched by the caller alone. -/
+theorem facts_progress_channel :
+    ((ConcFacts.workers.filter fun w => w.func == "rayRenderer.Render#mapCoordinates1").map
+      fun w => w.effects.map (·.kind)) = [[.ownIndex, .chanSend]] ∧
+    ((ConcFacts.workers.filter fun w => w.func == "rayRenderer.Render#go1").map
+      fun w => w.effects.map (·.kind)) = [[.chanClose]] := by
+  decide
+
 /-- `mapCoordinates` creates a channel with room for every pixel, fills it, closes it and only
 then spawns the workers, each of which ranges over the channel and calls back with the received
 index: the `chanInit`/`chanProg` instance. -/
@@ -636,7 +833,8 @@ theorem facts_cacheScalarFunc : ConcFacts.cacheScalarFunc = ["decl:sync.Map", "c
 
 /-- **No read-only query method writes its receiver.**  Over all 370-odd methods named like the
 library's query interfaces (`Collider`, `Solid`, the SDF family, `render3d.Object`, `Material`,
-`AreaLight`, mesh queries) in model2d, model3d, render3d and toolbox3d, the extractor found no
+`AreaLight`, mesh queries incl. `Iterate` / `IterateSorted`, and the entry points
+`Render` / `RenderVariance` / `RayVariance` of the exported renderer types) in model2d, model3d, render3d and toolbox3d, the extractor found no
 assignment to memory of the receiver — neither directly, nor through a slice alias of one of its
 fields, nor through another method of the same type.  So the only state a query writes is state
 of its own call: the discipline of `owned_state_noninterference`. -/
@@ -646,14 +844,17 @@ theorem facts_queries_readonly : ConcFacts.queryReceiverWrites = [] := by decide
 (so the previous theorem is not vacuous after a refactor). -/
 theorem facts_queries_cover :
     ConcFacts.querySitesSeen =
-      ["model2d.ColliderSolid.Contains", "model2d.JoinedCollider.CircleCollision",
+      ["model2d.ColliderSolid.Contains", "model2d.JoinedCollider.CircleCollision", "model2d.Mesh.IterateSorted",
        "model3d.ColliderSolid.Contains", "model3d.JoinedCollider.FirstRayCollision",
        "model3d.JoinedCollider.RayCollisions", "model3d.JoinedCollider.SphereCollision",
+       "model3d.Mesh.IterateSorted",
        "model3d.SolidCollider.RayCollisions", "model3d.colliderSDF.SDF", "model3d.meshSDF.SDF",
        "model3d.profileCollider.FirstRayCollision", "model3d.profileCollider.RayCollisions",
        "model3d.profileCollider.SphereCollision", "model3d.transformedCollider.RayCollisions",
+       "render3d.BidirPathTracer.RayVariance", "render3d.BidirPathTracer.Render",
        "render3d.ColliderObject.Cast", "render3d.FilteredObject.Cast", "render3d.JoinedObject.Cast",
-       "render3d.PhongMaterial.BSDF", "render3d.colorFuncObject.Cast"] ∧
+       "render3d.PhongMaterial.BSDF", "render3d.RecursiveRayTracer.RayVariance",
+       "render3d.RecursiveRayTracer.Render", "render3d.colorFuncObject.Cast"] ∧
     300 ≤ ConcFacts.queryMethodCount := by
   decide
 
